@@ -8,9 +8,11 @@ C03 / C01 with the external functions instantiated by the codec models (what the
   codecExt_ok              `ExtOK (codecExt …)`: what the C14 string parsers return fits the column's storage — from the
                            range theorems of Props/C14.lean (`timeOfString_exact`, `span_parse_exact`) and the checked
                            conversions of the date / timestamp builders
-  C03_wf_codec             `C03_wfS` without the `ExtOK` hypothesis
+  C03_wf_codec             `Props.C01.C03_wf'` (the headline: `Spec.WF`, structure AND type equality) without the `ExtOK`
+                           hypothesis; remaining: `SchemaOKF`, `PlainF`, `Safe ∨ coveredF`, `SValOK`
   C03_wf_codec_typed       … and with `SValOK` replaced by the typing invariant `SVal.typed` the wire decoder checks
-  C01_build_decode_codec   `C01_build_decode` at the codec models (it never needed `ExtOK`; stated for symmetry)
+  C01_build_decode_codec   `Props.C01.C01_build_decode'` at the codec models, for rows without raw key / value streams
+                           (`noRaw`); no `Safe`, no `ExtOK` (the theorem holds for every `Ext`; stated for symmetry)
 -/
 namespace SaModel.Props.C03
 open SaModel SaModel.Build SaModel.Spec
@@ -99,7 +101,7 @@ theorem codecExt_ok (f32Str f64Str : Nat → String) (cast : Nat → Int → Boo
 /-- **C03 with the codec models plugged in**: no hypothesis on the external functions is left.  Remaining: `SchemaOKF`
 (no `FixedSizeBinary(0)`: known finding), `PlainF` (no metadata on a Map's entries field: known finding), `Safe` OR `coveredF`
 (the hypothesis of `Props.C01.C03_wf'`: both decidable on the schema), and `SValOK` (the typing invariant of `SVal`).
-Conclusion: the tightened `Spec.WF` (structure AND `typeOf a = f.dataType`). -/
+Conclusion: `Spec.WF` (structure AND `typeOf a = f.dataType`). -/
 theorem C03_wf_codec (f32Str f64Str : Nat → String) (cast : Nat → Int → Bool → Nat → Option (Bool × Int))
     (fields : List Field) (rows : List SVal) (arrs : List Arr)
     (hschema : ∀ f ∈ fields, Lemmas.C03.SchemaOKF f)
@@ -112,14 +114,14 @@ theorem C03_wf_codec (f32Str f64Str : Nat → String) (cast : Nat → Int → Bo
       WF f a = true ∧ (decodeAll a).length = rows.length :=
   Props.C01.C03_wf' _ fields rows arrs hschema hplain hsafe (codecExt_ok f32Str f64Str cast) hrows h
 
-/-- `SValOK`, the row hypothesis of `C03_wfS`, is implied by the typing invariant of `SVal` (`SVal.typed`,
+/-- `SValOK`, the row hypothesis of `C03_wfS` / `C03_wfS'` / `C03_wf'`, is implied by the typing invariant of `SVal` (`SVal.typed`,
 Data/SValTyped.lean: every scalar call carries a value of its Rust type).  The wire decoder of the driver checks it
 (`Driver.svalOfJson_typed`), a derived `Serialize` satisfies it (`Roundtrip.ser_ok` gives `SValOK` directly). -/
 theorem typed_SValOK (x : SVal) (h : x.typed = true) : Lemmas.C03.SValOK x := Lemmas.C03.typed_SValOK x h
 
 /-- **C03 as the correspondence driver instantiates it**: codec models for the external functions, rows that passed the
-typing check of the wire decoder.  What remains are the schema exclusions (`SchemaOKF`: no `FixedSizeBinary(0)`, the
-known finding; `Safe` OR `coveredF`). -/
+typing check of the wire decoder.  What remains are the schema exclusions (`SchemaOKF`: no `FixedSizeBinary(0)`, known
+finding; `PlainF`: no metadata on a Map's entries field, known finding; `Safe` OR `coveredF`).  Conclusion: `Spec.WF`. -/
 theorem C03_wf_codec_typed (f32Str f64Str : Nat → String) (cast : Nat → Int → Bool → Nat → Option (Bool × Int))
     (fields : List Field) (rows : List SVal) (arrs : List Arr)
     (hschema : ∀ f ∈ fields, Lemmas.C03.SchemaOKF f)
